@@ -15,7 +15,7 @@ structure LogDay where
   date : Civil
   elements : Elements      -- merged: each food once, first-appearance order
   notes : List MetaPair
-  deriving Repr
+  deriving DecidableEq, Repr
 
 /-- reporter.Config (the fields that reach a reporter) -/
 structure RCfg where
